@@ -13,6 +13,7 @@ History = list of ops (JSON):
 spec: formula string, or list / dict of strings (mutable formula specs).
 """
 import copy
+import random as _random
 import hashlib
 import json
 import os
@@ -51,6 +52,12 @@ def make_frames():
     d3 = pd.DataFrame({"a": [2.0, -1.5, 0.25, 5.0, 3.5, 1.0, -0.5, 4.25], "b": [6.0, 2.5, 7.0, 1.5, 4.5, 3.0, 8.0, 5.5],
                        "A": [3.0, 1.0, 2.0, 1.0, 3.0, 2.0, 1.0, 2.0],
                        "B": pd.Categorical(["p", "q", "r", "p", "q", "r", "p", "q"], categories=["r", "p", "q"])})
+    # columns whose names are not Python identifiers (must be back-ticked inside Python-evaluated factors)
+    for frame, shift in ((d0, 0.0), (d1, 1.5), (d2, -2.0), (d3, 0.25)):
+        frame["my col"] = (frame["b"] * 0.5 + shift).to_numpy()
+        frame["a-b"] = (frame["a"].fillna(0.0) - frame["b"]).to_numpy()
+    # d2 additionally has a column named like the identifier a sanitised `my col` would get
+    d2["my_col"] = (d2["b"] * 3.0).to_numpy()
     # plain dict-of-columns input (the pandas materializer builds its own frame from it)
     dd = {"a": np.array(a), "b": list(b), "A": list(A), "B": np.array(B, dtype=object)}
     return {"d0": d0, "d1": d1, "d2": d2, "d3": d3, "dd": dd}
@@ -173,6 +180,13 @@ def _formula_state(F):
     return state
 
 
+def _rng_state():
+    """State of the two global random streams (numpy legacy global RandomState, stdlib random)."""
+    name, keys, pos, has_gauss, cached = np.random.get_state()
+    return (name, hashlib.blake2b(np.ascontiguousarray(keys).tobytes(), digest_size=8).hexdigest(), int(pos), int(has_gauss),
+            float(cached), hashlib.blake2b(repr(_random.getstate()).encode(), digest_size=8).hexdigest())
+
+
 def run_history(ops):
     D = make_frames()
     D_before = {k: copy.deepcopy(v) for k, v in D.items()}
@@ -191,6 +205,7 @@ def run_history(ops):
 
     for i, op in enumerate(ops):
         S = set()
+        rng_before = _rng_state()
         try:
             kind = op[0]
             if kind == "mm":
@@ -239,6 +254,11 @@ def run_history(ops):
         except Exception as e:
             results.append(e)
             calls.append(_exc_digest(e))
+        # a build must not consume (or reseed) the process-wide random streams
+        rng_after = _rng_state()
+        if rng_after != rng_before:
+            which = "numpy.random" if rng_after[:5] != rng_before[:5] else "random"
+            mutations.append({"what": "rng", "after_call": i, "object": which, "detail": f"global {which} state changed during the call"})
         # inputs must be untouched after every call
         for name in D:
             d = _frames_equal(D[name], D_before[name])
